@@ -87,6 +87,10 @@ class C04(PropBase):
                     "carrier": rng.choice(hist.CARRIERS) if isinstance(mem[1], str) else "value"}
             if rng.random() < 0.4:
                 step["op"] = "s_emit"
+            elif rng.random() < 0.5:
+                # F11, earlier in the same process: an input the routine rightly refuses (or one meant for
+                # another type); what follows must be read exactly as in a process that never saw it
+                step["prime"] = rng.choice(["no-such-member", "", "[", {"$list": [1]}, 12345, "None "])
             return step
         v = gen.gen_scalar_value(rng, k, cfg)
         r = rng.random()
@@ -174,6 +178,11 @@ class C04(PropBase):
                 text = m.value
             elif step["k"] == "enum":
                 text = v.value
+                if "prime" in step:
+                    refused = sess.guarded(sess.call, step, typelib.unmarshal, T, sess.V(step["prime"]))
+                    if not refused.ok:
+                        sess.faults["refused_before"] += 1
+                        sess.fault_fired_before = True
             else:
                 text = _text(v)
             for f in step.get("mid", ()):
